@@ -93,6 +93,7 @@ ShutdownOwed(m) ==
 OnCall(m, e) ==
   LET info == [op |-> e.op, c |-> e.c, item |-> e.item, ctx |-> e.ctx, rec |-> e.rec, counted |-> e.counted,
                pre |-> ~m.sdDone, must |-> Must(m), removed |-> Removed(m), lo |-> m.addLo,
+               xs |-> {c \in Comps(m) : m.xshut[c] >= 1},   \* exporters whose Shutdown had been called by then
                def |-> (e.op = "Unregister" /\ e.c \in Comps(m) /\ m.rr[e.c] /\ m.regOK[e.c] /\ ~m.sdBegun),
                sole |-> (e.op = "Unregister" /\ e.c \in Must(m))]
       m1 == [m EXCEPT !.calls = Put(@, e.k, info)] IN
@@ -161,7 +162,19 @@ OnExport(m, e) ==
                   m.calls[k].pre /\ m.calls[k].op \in {"ForceFlush", "Collect", "Shutdown"} IN
   \* a Shutdown that was given a cancelled context may give up and leave the final export running in
   \* the background ("honors the cancellation"); the clause is judged when no such call was made
-  <<m, IF m.sdDone /\ ~m.canc /\ ~byItem /\ ~byCall THEN {V("export-after-shutdown", e, m.cfg.kinds[e.c])} ELSE {}>>
+  \* WORK IN FLIGHT (InFlight.tla): whatever context Shutdown was given -- live, already cancelled, expiring -- and
+  \* whatever it returned, the component WAITS FOR or CANCELS the work in progress inside it (an interval collection
+  \* of the periodic reader's run loop, an export of a batch worker) BEFORE it shuts its exporter down: an Export that
+  \* BEGINS after the Shutdown of that very exporter was called is "something more exported" by a component that is
+  \* shut down, and an exporter used after its single Shutdown.  Not judged (the statement speaks of calls made after
+  \* Shutdown): an export on behalf of an API call that is still open and was made before that exporter's Shutdown
+  \* (an Emit / End racing the Shutdown, a ForceFlush / Collect / Shutdown in progress).
+  LET xItem == \E i \in items : i \in DOMAIN m.open /\ e.c \notin m.calls[m.open[i]].xs
+      xCall == items = {} /\ \E k \in DOMAIN m.calls :
+                  e.c \notin m.calls[k].xs /\ m.calls[k].op \in {"ForceFlush", "Collect", "Shutdown"} IN
+  <<m, (IF m.sdDone /\ ~m.canc /\ ~byItem /\ ~byCall THEN {V("export-after-shutdown", e, m.cfg.kinds[e.c])} ELSE {})
+       \cup (IF m.xshut[e.c] >= 1 /\ ~xItem /\ ~xCall
+               THEN {V("export-after-exporter-shutdown", e, m.cfg.kinds[e.c])} ELSE {})>>
 
 Step(m, e) ==
   CASE e.ev = "Call" -> OnCall(m, e)
